@@ -598,6 +598,25 @@ func reaches(a, b *ssa.BasicBlock) bool {
 	return walk(a)
 }
 
+// InstrReaches: can control flow from instruction a (after it executed) reach instruction b?
+func InstrReaches(a, b ssa.Instruction) bool {
+	if a.Block() == b.Block() {
+		ia, ib := -1, -1
+		for i, in := range a.Block().Instrs {
+			if in == a {
+				ia = i
+			}
+			if in == b {
+				ib = i
+			}
+		}
+		if ia < ib {
+			return true
+		}
+	}
+	return reaches(a.Block(), b.Block())
+}
+
 // ClosureBinding resolves a free variable of an anonymous function to the value bound at its MakeClosure site.
 func ClosureBinding(fv *ssa.FreeVar) ssa.Value {
 	fn := fv.Parent()
